@@ -31,6 +31,9 @@ UNI = {"e\u0301.txt": b"decomposed", "\u00e9.txt": b"composed", "u\u0308 dir": D
 # block sizes: folders with exactly 128 and 129 children
 BLOCK = {"k": DIR, **{f"k/f{i:03d}.bin": b"%d" % i for i in range(128)}, "k/m": DIR, **{f"k/m/g{i:03d}.bin": b"g%d" % i for i in range(127)}}
 BLOCK["k/m/sub"] = DIR   # k: 128 files + m = 129 children; k/m: 127 files + sub = 128 children
+# symbolic links to files (hashed through the link): the link's OWN name is the child name that the structure hash binds
+LINKTREE = {"a.txt": b"content of a", "d": DIR, "d/x.bin": b"content of x", "d/zz link": b"content of a", "first link": b"content of x"}
+LINKS = {"d/zz link": "../a.txt", "first link": "d/x.bin"}
 SPECIAL_TREES = [WIDE, SAMENAME, UNI]
 
 
@@ -112,6 +115,7 @@ def eval_case(ctx, case):
     excl = lambda p, isdir: ref.ignored(allp, p, isdir)
     now = sub.NOW0
     t = tree
+    sub.LINKS = dict(case.get("links") or {})
     if case.get("order") == "reversed":
         sub.ORDER["perm"] = lambda d, names: list(reversed(names))
     try:
@@ -213,6 +217,7 @@ def eval_case(ctx, case):
                                   f"{'same' if b[0] == n[0] else 'changed'}, structure {'same' if b[1] == n[1] else 'changed'}")
     finally:
         sub.ORDER["perm"] = None
+        sub.LINKS = {}
     return v, stats
 
 
@@ -284,6 +289,8 @@ def main(tier, seed):
         deep = sorted((p for p, c in st.items() if c is not DIR), key=lambda p: -p.count("/"))[0]
         for fs in (["md5"], ["xxh64", "md5"], ["c4", "sha1"], ["xxh64"]):
             cases.append({"tree": st, "fmts": fs, "prior": ["xxh64"], "alter": deep})
+    cases.append({"tree": LINKTREE, "links": LINKS, "fmts": ["md5", "xxh64"]})
+    cases.append({"tree": LINKTREE, "links": LINKS, "fmts": ["c4"], "prior": ["xxh64"]})
     cases.append({"tree": BLOCK, "fmts": ["md5", "xxh64"]})
     cases.append({"tree": BLOCK, "fmts": ["c4"]})
     for f in ref.FORMATS_CLI:
